@@ -166,6 +166,11 @@ def checkNode (t : Tree) (ptrs : Array Ptr) (id : Nat) (n : Ptr) (o : NodeObs) :
   let some v := deref t n | some s!"M: node {id}: driver cannot dereference its own pointer"
   let some path := parsePathTok o.path | some s!"P: node {id}: topath failed or is not an array of strings/ints ({o.path})"
   let some g := parseObsId o.g | some s!"B: node {id}: bad id {o.g}"
+  -- P0 (Props.C12.path_length_is_depth): one path component per ancestor. The depth comes from the shape walked
+  -- in Go (Compound.Children), not from anything fq's path functions said.
+  if path.length != depth n then
+    some s!"P: node {id}: path length ≠ depth: topath has {path.length} components, the value is {depth n} levels below the root (topath={o.path})"
+  else
   -- P1: root | getpath(v | topath) is v itself
   if g != .node id then
     some s!"P: node {id}: root|getpath(topath) is {o.g}, not the value itself (topath={o.path})"
